@@ -65,7 +65,7 @@ func checkC10(r *Run) {
 			t := P.callTerm(m)
 			amt := argTerm(t, 2).String()
 			addr := argTerm(t, 3).String()
-			okAmt := strings.HasPrefix(amt, "out:amount←") && strings.Contains(amt, "UnmarshalBinaryBare(") && strings.Contains(amt, "github.com/tendermint/tm-db.Iterator.Value("+it+")")
+			okAmt := strings.HasPrefix(amt, "out:types.Int←") && strings.Contains(amt, "UnmarshalBinaryBare(") && strings.Contains(amt, "github.com/tendermint/tm-db.Iterator.Value("+it+")")
 			r.Check(okAmt, "C10-R3", "mintValidatorAwards/amount-from-entry", P.InstrPos(m), amt, "minted amount is "+amt+" ; required: decoded from iterator.Value() of the award prefix")
 			wantAddr := "x/pos/types.AddressFromKey(github.com/tendermint/tm-db.Iterator.Key(" + it + "))"
 			r.Check(addr == wantAddr, "C10-R3", "mintValidatorAwards/address-from-key", P.InstrPos(m), addr, "recipient is "+addr+" ; required "+wantAddr)
